@@ -23,3 +23,11 @@ PROPS = {
         shrink_budget=120,
     ),
 }
+
+# per-property files lib/props_cNN.py may add or override entries: each defines PROP = {...} and ID = 'Cnn'
+import glob as _glob, os as _os, importlib.util as _ilu
+for _f in sorted(_glob.glob(_os.path.join(_os.path.dirname(_os.path.abspath(__file__)), 'props_c*.py'))):
+    _spec = _ilu.spec_from_file_location(_os.path.basename(_f)[:-3], _f)
+    _m = _ilu.module_from_spec(_spec)
+    _spec.loader.exec_module(_m)
+    PROPS[_m.ID] = _m.PROP
